@@ -17,6 +17,19 @@ root = os.path.abspath(sys.argv[1])
 jobs = int(sys.argv[sys.argv.index("-j") + 1]) if "-j" in sys.argv else 3
 props = sys.argv[sys.argv.index("--props") + 1].split(",") if "--props" in sys.argv else sorted(p for p in registry.PROPS if p not in registry.NOT_APPLICABLE)
 only = sys.argv[sys.argv.index("--only") + 1] if "--only" in sys.argv else "*"
+related_only = "--related" in sys.argv   # only the properties whose anchor files contain the patched file (plus the patch's own property)
+ANCH = {}
+for line in open("/verif/properties.jsonl"):
+    d = json.loads(line); ANCH[d["id"]] = d.get("anchors", {}).get("files", [])
+
+
+def related(sid, patch):
+    files = [l[6:].strip() for l in open(patch) if l.startswith("+++ b/")]
+    out = set([sid.split("_")[0]])
+    for pid, fl in ANCH.items():
+        for a in fl:
+            if any(f == a or (a.endswith("/") and f.startswith(a)) for f in files): out.add(pid)
+    return sorted(p for p in out if p in props)
 
 
 def one(pd):
@@ -25,8 +38,9 @@ def one(pd):
     r = subprocess.run("cp -r /repo/include %s/ && cd %s && patch -p1 -s --no-backup-if-mismatch < %s" % (scratch, scratch, patch), shell=True, capture_output=True, text=True)
     if r.returncode:
         shutil.rmtree(scratch, ignore_errors=True); return sid, dict(applies=False, err=(r.stdout + r.stderr)[-300:])
-    res = dict(applies=True, checks={})
-    for p in props:
+    run = related(sid, patch) if related_only else props
+    res = dict(applies=True, checks={}, ran=run)
+    for p in run:
         c = subprocess.run(["python3", "/verif/check.py", p, "--tier", "quick"], capture_output=True, text=True,
                            env=dict(os.environ, VERIF_REPO=scratch, VERIF_JOBS="4"))
         if c.returncode:
@@ -43,5 +57,5 @@ with cf.ThreadPoolExecutor(jobs) as ex:
     for sid, res in ex.map(one, dirs):
         out[sid] = res
         bad = res.get("checks")
-        print(sid, "does not apply" if not res["applies"] else ("SILENT (%d checks)" % len(props) if not bad else "ALARM " + json.dumps(bad)[:600]), flush=True)
+        print(sid, "does not apply" if not res["applies"] else ("SILENT (%s)" % ",".join(res["ran"]) if not bad else "ALARM " + json.dumps(bad)[:600]), flush=True)
         json.dump(out, open(os.path.join(root, "screen.json"), "w"), indent=1)
